@@ -704,6 +704,70 @@ func (f stubFetcher) Tags(context.Context, name.Reference, ...string) ([]string,
 	return nil, nil
 }
 
+// runRealFaultThenDeactivate: an established, still active revision is reconciled again by the
+// REAL revision reconciler and one of that reconcile's API calls fails (500 / applied-but-504 /
+// timeout), for every call index; before any retry the package manager deactivates the revision
+// (an upgrade) and the revision is reconciled as inactive. Whatever the failed reconcile left in
+// the revision's status: the inactive revision ends up controlling nothing.
+func runRealFaultThenDeactivate(c *kit.Ctx, i int) {
+	base := fmt.Sprintf("rfault/%d", i)
+	if !wantUnder(c, base) {
+		return
+	}
+	sc := genSeq(c.Rng("rfault", i), false, []string{"Configuration", "Provider"}[i%2])
+	if len(sc.S1) < 3 {
+		sc = genSeq(c.Rng("rfault-retry", i), false, []string{"Configuration", "Provider"}[i%2])
+	}
+	sc.KillJunk, sc.KillOtherRev = -1, -1
+	desc := map[string]any{"sequence": sc}
+	probe := sc.prepare(c, base+"/probe", desc, uint64(c.Seed)*9_000_011+uint64(i))
+	probe.useRealReconciler()
+	if !sc.install(probe) {
+		return
+	}
+	probe.cl.ResetCalls()
+	_ = probe.reconcile("pk-r1")
+	calls := probe.cl.Calls()
+	probe.flush()
+	for k := 0; k < calls; k++ {
+		for _, out := range []sim.Outcome{sim.ServerError, sim.ErrorAfter, sim.Timeout} {
+			name := fmt.Sprintf("%s/k%d-%s", base, k, out)
+			if !c.Want(name) {
+				continue
+			}
+			x := sc.prepare(c, name, desc, uint64(c.Seed)*9_000_011+uint64(i))
+			x.useRealReconciler()
+			if !sc.install(x) {
+				return
+			}
+			// the active revision's next reconcile fails at call k
+			x.mon.cur = &opCtx{Op: "reconcile", RevName: "pk-r1", RevUID: x.revs["pk-r1"].UID, PkgUID: x.pkgUID, Control: true}
+			x.cl.ResetCalls()
+			x.cl.Fault(k, out)
+			var rerr error
+			perr := kit.Try(func() {
+				_, rerr = x.real.rec.Reconcile(context.Background(), reconcile.Request{NamespacedName: types.NamespacedName{Name: "pk-r1"}})
+			})
+			x.cl.ClearFaults()
+			x.mon.cur = nil
+			x.ops = append(x.ops, fmt.Sprintf("Reconcile(pk-r1, active) with %s at call %d -> err=%v panic=%v", out, k, rerr, perr))
+			// the upgrade: rev1 deactivated, rev2 activated; rev1 is reconciled first
+			x.setState("pk-r1", v1.PackageRevisionInactive)
+			x.setState("pk-r2", v1.PackageRevisionActive)
+			x.ops = append(x.ops, "package manager: pk-r1 -> Inactive, pk-r2 -> Active")
+			for n := 0; n < 2; n++ {
+				if err := x.reconcile("pk-r1"); err == nil {
+					break
+				}
+			}
+			_ = x.reconcile("pk-r2")
+			c.Eval(fmt.Sprintf("rfault|%s|%d|%s", kit.JSON(sc), k, out), true)
+			x.count("real_fault_then_deactivate_runs", 1)
+			x.flush()
+		}
+	}
+}
+
 // runTwoPackages: the revision controller's workers share ONE establisher. Revisions of two
 // different packages are established by it, the first parked before each of its API calls while
 // the second runs to completion. Every established object ends up with the owner references of
@@ -842,6 +906,7 @@ func main() {
 	c.Rule += " " + "Same-named objects of different kinds in the reconciler sequences (every manifest referenced); packages of 150-270 CRDs with one un-takeable object (a refused Establish writes nothing)."
 	c.Rule += " " + "Revisions created by the real package manager for short, dotted, 74- and 100-character package names; a deactivated revision reconciled from a cache that still shows it Active."
 	c.Rule += " " + "two-packages: revisions of two packages established by ONE establisher, the first parked before each API call while the second completes; owner references per object equal the sequential run."
+	c.Rule += " " + "rfault: an established active revision reconciled again by the real reconciler with a failure at each call, deactivated before any retry, then reconciled as inactive: it controls nothing afterwards."
 	c.Assumptions = []string{
 		"sim implements the apiserver rules of DESIGN.md 2.2 (dry-run fully validated and not persisted, two controller references rejected, GC by owner UID)",
 		"the revision passed to the establisher carries its GroupVersionKind, as objects read through controller-runtime's cache do",
@@ -871,6 +936,9 @@ func main() {
 	for i := 0; i < c.N(8, 24); i++ {
 		jobs = append(jobs, job{"mgr", i})
 		jobs = append(jobs, job{"two", i})
+		if i%4 == 0 {
+			jobs = append(jobs, job{"rfault", i})
+		}
 	}
 	for i := 0; i < c.N(50, 250); i++ {
 		jobs = append(jobs, job{"fault", i})
@@ -895,6 +963,8 @@ func main() {
 						runManagerCreated(c, j.i)
 					case "two":
 						runTwoPackages(c, j.i)
+					case "rfault":
+						runRealFaultThenDeactivate(c, j.i)
 					case "seq":
 						runSeq(c, j.i, false)
 					case "rseq":
